@@ -115,8 +115,12 @@ def sig_of(c, k, kind):
 
 def check(ctx, lentil, c, spec):
     real = ox.run_real(lentil, c)
+    one = ox.one_element_involved(real)
     for (k, kind, detail) in ox.compare(c, spec['obs'], real):
-        ctx.violation(sig_of(c, k, kind), dict(detail, step=k, variant=c['var'], nseg=c['nseg']), case={'case': c, 'spec': spec})
+        sg = sig_of(c, k, kind)
+        if one:
+            sg['single_sample_bbox'] = True      # a one-sample Field (e.g. the product of two segments) took part
+        ctx.violation(sg, dict(detail, step=k, variant=c['var'], nseg=c['nseg']), case={'case': c, 'spec': spec})
     return real
 
 
